@@ -1594,7 +1594,7 @@ zshPrefixLoop:
 		}
 	case colon: // slicing
 		if p.lang.in(LangZsh) && (p.r == '&' || asciiLetter(p.r)) {
-			pos := p.pos
+			pos := posAddCol(p.pos, 1) // the modifier starts after the colon
 		loop:
 			for p.newLit(p.r); ; p.rune() {
 				switch p.r {
